@@ -859,14 +859,21 @@ class UniformTime(np.ndarray, TimeInterface):
         if self.ndim != 1:
             e_s = 'slicing only implemented for 1-d TimeArrays'
             return NotImplementedError(e_s)
-        i_start = self.index_at(e.start)
-        i_stop = self.index_at(e.stop)
-        if e.start > self[i_start]:  # make sure self[i_start] is in epoch e
-            i_start += 1
-        if e.stop > self[i_stop]:  # make sure to include self[i_stop]
-            i_stop += 1
+        t_end = self.t0 + self.duration
 
-        return slice(i_start, i_stop)
+        def edge(t):
+            # An epoch may begin before the first sample or end after the
+            # last one: clip it to the range covered by this axis.
+            if t < self.t0:
+                return 0
+            if t >= t_end:
+                return len(self)
+            i = self.index_at(t)
+            if t > self[i]:  # self[i] lies before t: start/stop at the next
+                i += 1
+            return i
+
+        return slice(edge(e.start), edge(e.stop))
 
     def at(self, t):
         """ Returns the values of the UniformTime object at time t"""
